@@ -285,6 +285,10 @@ bool binson_parser_leave_object(binson_parser *parser)
         return false;
     }
 
+    if (BINSON_ERROR_NONE != parser->error_flags) {
+        return false;
+    }
+
     binson_state *state = &parser->state[(parser->depth > 0) ? parser->depth - 1 : 0];
     if (!CHECKBITMASK(state->flags, BINSON_STATE_IN_OBJECT)) {
         return false;
@@ -310,6 +314,10 @@ bool binson_parser_go_into_array(binson_parser *parser)
 bool binson_parser_leave_array(binson_parser *parser)
 {
     if (NULL == parser) {
+        return false;
+    }
+
+    if (BINSON_ERROR_NONE != parser->error_flags) {
         return false;
     }
 
